@@ -160,6 +160,8 @@ func runC11(r *Run) {
 	// "once anchored inside its window": the appliers re-parse an anchored request in batch mode, so that the rules
 	// that only apply at submission time (the anchoring window against the node's clock) are not re-run at
 	// resolution, when the window has long closed
+	// "once anchored inside its window": the applier's window test (shared with C05 / C03)
+	r.checkApplierWindow(P, r.applierFuncs(P+".window"), map[*ssa.Function]bool{})
 	r.checkApplierBatchMode(P)
 	// consumer functions: parser + applier packages
 	consumers := r.P.SubjectFuncs(pkgParser, pkgApplier)
